@@ -175,6 +175,24 @@ func TestVerifC07(t *testing.T) {
 				{"far", far, post},
 				{"far'", far + vOOVBlock(r, 3), post2},
 			}
+			// a prefix whose byte length puts X's first multi-byte character across the
+			// tokenizer's 1020-byte chunk boundary
+			for o, c := range x {
+				if c > 127 {
+					want := ((1019-o)%1020 + 1020) % 1020 // prefix length modulo 1020
+					base := vOOVBlock(r, 2)
+					for len(base) > want+1020*3 {
+						base = vOOVBlock(r, 1)
+					}
+					n := want - len(base)%1020
+					if n < 0 {
+						n += 1020
+					}
+					edge := strings.TrimSuffix(base, "\n") + strings.Repeat(" ", n) + "\n"
+					pls = append(pls, placement{"chunk-edge", edge, post2})
+					break
+				}
+			}
 			res := make([][]vM, len(pls))
 			norm := make([][]vM, len(pls)) // shifted back to X's own coordinates
 			for i, p := range pls {
